@@ -53,6 +53,14 @@ theorem fact_best_practices_conditions :
 theorem fact_acceptable_algs_asymmetric :
     ∀ a ∈ Facts.C04.policy.acceptableAlgs, a ∉ ["none", "", "HS256", "HS384", "HS512"] := by decide
 
+set_option maxRecDepth 4000 in
+/-- engine.go matchesPath, verbatim: append `/` where missing, then equality or prefix — no query, scheme or authority is
+    cut off its input first (the auth skipper hands it the DECODED URL path, in which `?` and `://` are ordinary bytes of a
+    segment); the model's `matchesPath` is exactly this -/
+theorem fact_matches_path_is_a_plain_prefix_test :
+    Facts.C04.matchesPathBody =
+      "{ if path == \"/\" { return true } if !strings.HasSuffix(requestURI, \"/\") { requestURI += \"/\" } if !strings.HasSuffix(path, \"/\") { path += \"/\" } return requestURI == path || strings.HasPrefix(requestURI, path) }" := by rfl
+
 /-! ### no_bypass -/
 
 /-- a route registered under `/internal`: its echo pattern starts with the literal segment `internal` -/
